@@ -12,7 +12,7 @@ For every history (the refinement link, `Proofs/ManagerSim*.lean`): `spec_ack_cl
 any well-formed history and give the history-based Spec (`Spec.runSpec`, the function the driver evaluates on what the
 real `MessageManager` did) the events the model itself wrote, round by round: the Spec's verdict contains **no C19
 entry**.  The proof replays the Spec's abstract table against the model's tables through a simulation relation
-(`Sim`, preserved by every round: `round_ok`) and shows frame by frame that `Spec.checkAcks` — addressed to the sender's
+(`SimM`, preserved by every round: `round_ok`) and shows frame by frame that `Spec.checkAcks` — addressed to the sender's
 module id, exactly once to the sender (twice if it is itself a logger), one copy per connected logger whose connection
 works, none to anybody else, none for frames that must not be acknowledged — adds nothing.  So: whenever the
 implementation's events agree with the model's on a history (the CORR tie), the C19 verdict of the Spec on the
@@ -189,13 +189,13 @@ C19 entry. -/
 theorem spec_ack_clause_passes_on_model (cfg : Cfg) (ok : CfgOK cfg) (hfuel : cfg.fuel = 0) (hperm : OrdPerm cfg)
     (hmt : cfg.mtClosed ≠ cfg.allTypes) (rs : List Round) (hwf : RoundsWF rs) :
     (Spec.runSpec cfg rs (Pyrtma.Drv.Manager.modelRun cfg rs).1 none).errs.filter (·.1 == "C19") = [] :=
-  spec_passes_on_model ok hfuel hperm hmt rs hwf "C19" (by simp [proven]) (fun h => absurd h (by decide))
+  spec_passes_on_model ok hfuel hperm hmt rs hwf "C19" (by simp [provenCore]) (fun h => absurd h (by decide))
 
 /-- …and the abstract table the Spec ends with describes the model's final tables: same live connections, same module
     ids, flags, names, pids and subscriptions, same failure environment -/
 theorem spec_table_simulates_model (cfg : Cfg) (ok : CfgOK cfg) (hfuel : cfg.fuel = 0) (hperm : OrdPerm cfg)
     (hmt : cfg.mtClosed ≠ cfg.allTypes) (rs : List Round) (hwf : RoundsWF rs) :
-    Sim cfg ((List.zip rs (modelRounds cfg (init cfg) rs)).foldl (fun a p => Spec.round cfg a p.1 p.2) {}) (run cfg rs) :=
+    SimM cfg ((List.zip rs (modelRounds cfg (init cfg) rs)).foldl (fun a p => Spec.round cfg a p.1 p.2) {}) (run cfg rs) :=
   (rounds_ok ok hfuel hperm hmt rs {} (init cfg) (init_sim ok hfuel hmt (ordOK_of_perm hperm)) hwf).1.sim
 
 /-! ### Non-vacuity -/
